@@ -7,6 +7,7 @@ import (
 	"io"
 	"os"
 	"path/filepath"
+	"runtime/debug"
 	"sort"
 	"strings"
 
@@ -431,6 +432,9 @@ func classify(err error) Outcome {
 func guard(f func() error) (o Outcome) {
 	defer func() {
 		if r := recover(); r != nil {
+			if os.Getenv("VERIF_SHOW_PANIC") != "" {
+				fmt.Fprintf(os.Stderr, "panic: %v\n%s\n", r, debug.Stack())
+			}
 			o = Outcome{Class: "panic"}
 		}
 	}()
